@@ -28,7 +28,7 @@ func init() {
 }
 
 var c18Channels = []string{"news", "nest", "alpha"}
-var c18Patterns = []string{"ne*", "*", "a?pha"}
+var c18Patterns = []string{"ne*", "*", "a?pha", "{news,alpha}", "ne{ws,st}", "[an]e*", "{nest,al*}"}
 
 func genC18(r *Rng, tier string, idx int) *Plan {
 	p := &Plan{Profile: "pubsub", Knobs: map[string]int64{}, SKnobs: map[string]string{}}
@@ -59,9 +59,13 @@ func genC18(r *Rng, tier string, idx int) *Plan {
 				seq++
 				p.Ops = append(p.Ops, Op{Kind: "publish", C: pb, Args: []string{"PUBLISH", ch, fmt.Sprintf("p%d-%d", pb, seq)}})
 			}
-		case x < 90:
+		case x < 92:
 			p.Ops = append(p.Ops, Op{Kind: "deliver", N: int64(r.Range(1, 8))})
-		case x < 93:
+		case x < 95:
+			// two connections subscribe to a channel that does not exist yet at the same moment (the steps of the two
+			// SUBSCRIBE commands are interleaved by the dice at the pub/sub locks)
+			p.Ops = append(p.Ops, Op{Kind: "subrace", C: c, N: int64(r.Intn(nsub)), Args: []string{Pick(r, []string{"SUBSCRIBE", "SUBSCRIBE", "PSUBSCRIBE"}), fmt.Sprintf("race%d", i)}})
+		case x < 97:
 			// the subscriber's connection is closed by the client (or drops); later commands of that
 			// subscriber arrive on a new connection
 			p.Ops = append(p.Ops, Op{Kind: "disconnect", C: c})
@@ -94,9 +98,31 @@ type c18Expect struct { // what one subscription of one connection must receive,
 	msgs map[int][]string
 }
 
+// globMatch: shell-style matching with {a,b} alternation (expanded first), ?, * and character classes.
 func globMatch(pat, name string) bool {
-	ok, err := path.Match(pat, name)
-	return err == nil && ok
+	for _, alt := range expandBraces(pat) {
+		if ok, err := path.Match(alt, name); err == nil && ok {
+			return true
+		}
+	}
+	return false
+}
+
+func expandBraces(pat string) []string {
+	i := strings.IndexByte(pat, '{')
+	if i < 0 {
+		return []string{pat}
+	}
+	j := strings.IndexByte(pat[i:], '}')
+	if j < 0 {
+		return []string{pat}
+	}
+	j += i
+	var out []string
+	for _, alt := range strings.Split(pat[i+1:j], ",") {
+		out = append(out, expandBraces(pat[:i]+alt+pat[j+1:])...)
+	}
+	return out
 }
 
 func runC18(t *testing.T, p *Plan) *Outcome {
@@ -230,7 +256,109 @@ func runC18(t *testing.T, p *Plan) *Outcome {
 				}
 			}
 		}
+		var afterCommand func(i int, op Op, c int, mark int)
 		drainNow := false
+		// afterCommand checks the confirmations subscriber c received for op (frames since mark) and updates the model
+		afterCommand = func(i int, op Op, c int, mark int) {
+			name := strings.ToUpper(op.Args[0])
+			if subs[c].SrvPanic != "" {
+				fail("panic/"+name, subs[c].SrvPanic)
+				return
+			}
+			if !pull(c) {
+				return
+			}
+			// confirmations = frames since mark that are not message pushes
+			var conf []Reply
+			for _, f := range streams[c][mark:] {
+				fl := flattenConf(f)
+				conf = append(conf, fl...)
+			}
+			m := model[c]
+			isPat := name == "PSUBSCRIBE" || name == "PUNSUBSCRIBE"
+			var wantNames []string
+			var wantCounts []int
+			switch name {
+			case "SUBSCRIBE", "PSUBSCRIBE":
+				for _, ch := range op.Args[1:] {
+					if isPat {
+						m.pats[ch] = true
+					} else {
+						m.chans[ch] = true
+					}
+					wantNames = append(wantNames, ch)
+					wantCounts = append(wantCounts, m.total())
+				}
+			case "UNSUBSCRIBE", "PUNSUBSCRIBE":
+				targets := op.Args[1:]
+				if len(targets) == 0 {
+					set := m.chans
+					if isPat {
+						set = m.pats
+					}
+					targets = keysOf(set)
+				}
+				for _, ch := range targets {
+					had := m.chans[ch]
+					if isPat {
+						had = m.pats[ch]
+						delete(m.pats, ch)
+					} else {
+						delete(m.chans, ch)
+					}
+					if had || len(op.Args) > 1 {
+						wantNames = append(wantNames, ch)
+						wantCounts = append(wantCounts, m.total())
+					}
+				}
+			}
+			// check confirmations: one per channel (order free for unsubscribe-all), right names
+			var gotNames []string
+			for _, f := range conf {
+				if len(f.Elems) == 3 && strings.EqualFold(f.Elems[0].Text(), name) {
+					gotNames = append(gotNames, f.Elems[1].Text())
+				}
+			}
+			if name == "PUNSUBSCRIBE" && len(op.Args) > 1 {
+				// Whether PUNSUBSCRIBE <pattern> also drops channel subscriptions whose NAME matches the pattern is
+				// not defined by the documentation (the pinned tree does it on purpose): the model follows the
+				// confirmations, provided every dropped name matches one of the patterns given.
+				for _, gn := range gotNames {
+					ok := false
+					for _, pat := range op.Args[1:] {
+						if gn == pat || globMatch(pat, gn) {
+							ok = true
+						}
+					}
+					if !ok {
+						fail("confirmation/punsubscribe", fmt.Sprintf("op %d %q confirmed dropping %q which matches none of the patterns", i, op.Args, gn))
+					}
+					delete(m.chans, gn)
+					delete(m.pats, gn)
+				}
+			}
+			a, b := append([]string{}, gotNames...), append([]string{}, wantNames...)
+			if strings.HasSuffix(name, "UNSUBSCRIBE") {
+				// unsubscribing from something one is not subscribed to may or may not be confirmed
+				a, b = filterIn(a, wantNames), filterIn(b, gotNames)
+				sort.Strings(a)
+				sort.Strings(b)
+			}
+			if !equalStrings(a, b) && !strings.HasSuffix(name, "UNSUBSCRIBE") {
+				fail("confirmation/"+strings.ToLower(name), fmt.Sprintf("op %d %q on connection %d: confirmations for %v, expected one per channel %v", i, op.Args, c, gotNames, wantNames))
+				return
+			}
+			// running counts (subscribe family only: unsubscribe confirmations of the pinned tree are recorded as a finding when they disagree)
+			k := 0
+			for _, f := range conf {
+				if len(f.Elems) == 3 && strings.EqualFold(f.Elems[0].Text(), name) && k < len(wantCounts) && !strings.HasSuffix(name, "UNSUBSCRIBE") {
+					if got, _ := strconv.Atoi(f.Elems[2].Text()); got != wantCounts[k] {
+						fail("confirmation-count/"+strings.ToLower(name), fmt.Sprintf("op %d %q on connection %d: confirmation %d carries count %d, the connection now has %d subscriptions", i, op.Args, c, k+1, got, wantCounts[k]))
+					}
+					k++
+				}
+			}
+		}
 		for i, op := range p.Ops {
 			if o.Sig != "" {
 				break
@@ -242,6 +370,61 @@ func runC18(t *testing.T, p *Plan) *Outcome {
 			switch op.Kind {
 			case "deliver":
 				deliver(int(op.N))
+			case "subrace":
+				if len(op.Args) != 2 || nsub < 2 {
+					continue
+				}
+				c1, c2 := op.C%nsub, int(op.N)%nsub
+				if c1 == c2 {
+					c2 = (c1 + 1) % nsub
+				}
+				names = append(names, "subrace:"+strings.ToUpper(op.Args[0]))
+				if !pull(c1) || !pull(c2) {
+					break
+				}
+				m1, m2 := len(streams[c1]), len(streams[c2])
+				s.ParkLocks = map[string]bool{"pubsub.channels": true, "pubsub.subscribers": true}
+				subs[c1].conn.Write(EncodeCmd(op.Args...))
+				subs[c2].conn.Write(EncodeCmd(op.Args...))
+				s.Settle()
+				for st := 0; st < 400; st++ {
+					var cands []*Task
+					for _, tk := range s.ParkedTasks() {
+						if strings.HasPrefix(tk.Site, "lock.") || strings.HasPrefix(tk.Site, "rlock.") {
+							cands = append(cands, tk)
+						}
+					}
+					if len(cands) == 0 {
+						break
+					}
+					tk := cands[dice.Next(len(cands))]
+					s.noteChoice(len(cands), tk.Site)
+					s.Release(tk)
+				}
+				s.ParkLocks = nil
+				afterCommand(i, op, c1, m1)
+				afterCommand(i, op, c2, m2)
+				if o.Sig != "" {
+					break
+				}
+				// one channel object, two subscribers
+				ch := op.Args[1]
+				if strings.EqualFold(op.Args[0], "SUBSCRIBE") {
+					r := probe.DoFiltered("PUBSUB", "NUMSUB", ch)
+					if flat := flatten(r.Reply); r.IsError() || len(flat) != 2 || flat[1].Text() != "2" {
+						fail("subscribe-race/NUMSUB", fmt.Sprintf("op %d: connections %d and %d subscribed to the new channel %s at the same moment; PUBSUB NUMSUB answers %s, 2 connections are subscribed", i, c1, c2, ch, r))
+					}
+				}
+				r := probe.DoFiltered("PUBSUB", "CHANNELS", ch)
+				n := 0
+				for _, e := range r.Reply.Elems {
+					if e.Text() == ch {
+						n++
+					}
+				}
+				if n > 1 {
+					fail("subscribe-race/CHANNELS", fmt.Sprintf("op %d: connections %d and %d subscribed to the new channel %s at the same moment; PUBSUB CHANNELS lists it %d times", i, c1, c2, ch, n))
+				}
 			case "disconnect":
 				c := op.C % nsub
 				names = append(names, "disconnect")
@@ -403,103 +586,7 @@ func runC18(t *testing.T, p *Plan) *Outcome {
 				}
 				mark := len(streams[c])
 				sendRaw(c, op.Args)
-				if subs[c].SrvPanic != "" {
-					fail("panic/"+name, subs[c].SrvPanic)
-					break
-				}
-				if !pull(c) {
-					break
-				}
-				// confirmations = frames since mark that are not message pushes
-				var conf []Reply
-				for _, f := range streams[c][mark:] {
-					fl := flattenConf(f)
-					conf = append(conf, fl...)
-				}
-				m := model[c]
-				isPat := name == "PSUBSCRIBE" || name == "PUNSUBSCRIBE"
-				var wantNames []string
-				var wantCounts []int
-				switch name {
-				case "SUBSCRIBE", "PSUBSCRIBE":
-					for _, ch := range op.Args[1:] {
-						if isPat {
-							m.pats[ch] = true
-						} else {
-							m.chans[ch] = true
-						}
-						wantNames = append(wantNames, ch)
-						wantCounts = append(wantCounts, m.total())
-					}
-				case "UNSUBSCRIBE", "PUNSUBSCRIBE":
-					targets := op.Args[1:]
-					if len(targets) == 0 {
-						set := m.chans
-						if isPat {
-							set = m.pats
-						}
-						targets = keysOf(set)
-					}
-					for _, ch := range targets {
-						had := m.chans[ch]
-						if isPat {
-							had = m.pats[ch]
-							delete(m.pats, ch)
-						} else {
-							delete(m.chans, ch)
-						}
-						if had || len(op.Args) > 1 {
-							wantNames = append(wantNames, ch)
-							wantCounts = append(wantCounts, m.total())
-						}
-					}
-				}
-				// check confirmations: one per channel (order free for unsubscribe-all), right names
-				var gotNames []string
-				for _, f := range conf {
-					if len(f.Elems) == 3 && strings.EqualFold(f.Elems[0].Text(), name) {
-						gotNames = append(gotNames, f.Elems[1].Text())
-					}
-				}
-				if name == "PUNSUBSCRIBE" && len(op.Args) > 1 {
-					// Whether PUNSUBSCRIBE <pattern> also drops channel subscriptions whose NAME matches the pattern is
-					// not defined by the documentation (the pinned tree does it on purpose): the model follows the
-					// confirmations, provided every dropped name matches one of the patterns given.
-					for _, gn := range gotNames {
-						ok := false
-						for _, pat := range op.Args[1:] {
-							if gn == pat || globMatch(pat, gn) {
-								ok = true
-							}
-						}
-						if !ok {
-							fail("confirmation/punsubscribe", fmt.Sprintf("op %d %q confirmed dropping %q which matches none of the patterns", i, op.Args, gn))
-						}
-						delete(m.chans, gn)
-						delete(m.pats, gn)
-					}
-				}
-				a, b := append([]string{}, gotNames...), append([]string{}, wantNames...)
-				if strings.HasSuffix(name, "UNSUBSCRIBE") {
-					// unsubscribing from something one is not subscribed to may or may not be confirmed
-					a, b = filterIn(a, wantNames), filterIn(b, gotNames)
-					sort.Strings(a)
-					sort.Strings(b)
-				}
-				if !equalStrings(a, b) && !strings.HasSuffix(name, "UNSUBSCRIBE") {
-					fail("confirmation/"+strings.ToLower(name), fmt.Sprintf("op %d %q on connection %d: confirmations for %v, expected one per channel %v", i, op.Args, c, gotNames, wantNames))
-					break
-				}
-				// running counts (subscribe family only: unsubscribe confirmations of the pinned tree are recorded as a finding when they disagree)
-				k := 0
-				for _, f := range conf {
-					if len(f.Elems) == 3 && strings.EqualFold(f.Elems[0].Text(), name) && k < len(wantCounts) && !strings.HasSuffix(name, "UNSUBSCRIBE") {
-						if got, _ := strconv.Atoi(f.Elems[2].Text()); got != wantCounts[k] {
-							fail("confirmation-count/"+strings.ToLower(name), fmt.Sprintf("op %d %q on connection %d: confirmation %d carries count %d, the connection now has %d subscriptions", i, op.Args, c, k+1, got, wantCounts[k]))
-						}
-						k++
-					}
-				}
+				afterCommand(i, op, c, mark)
 			}
 		}
 		// ---- drain all deliveries, then compare what every subscription received
